@@ -41,9 +41,32 @@ pub struct Case {
     pub kind: &'static str,
 }
 
+/// a sink that takes at most `max` bytes per call (pipes, sockets and compressing writers behave like this):
+/// the offsets of a file written through it have to be as exact as those of a file written in one piece
+struct ShortWrites {
+    data: Vec<u8>,
+    max: usize,
+}
+impl std::io::Write for ShortWrites {
+    fn write(&mut self, buf: &[u8]) -> std::io::Result<usize> {
+        let n = buf.len().min(self.max);
+        self.data.extend_from_slice(&buf[..n]);
+        Ok(n)
+    }
+    fn flush(&mut self) -> std::io::Result<()> {
+        Ok(())
+    }
+}
+
 pub fn plain_case(d: &RDoc, xref_stream: bool) -> Result<Case, String> {
     let mut doc = to_lo_doc(d, xref_stream);
     let mut bytes = vec![];
+    // one document in eight (chosen by its size) goes through a sink that accepts 7 bytes per call
+    if d.objects.len() % 8 == 3 {
+        let mut sink = ShortWrites { data: vec![], max: 7 };
+        doc.save_to(&mut sink).map_err(|e| format!("save_to failed: {}", e))?;
+        return Ok(Case { bytes: sink.data, expect: d.clone(), kind: if xref_stream { "short-writes/xref-stream" } else { "short-writes/xref-table" } });
+    }
     doc.save_to(&mut bytes).map_err(|e| format!("save_to failed: {}", e))?;
     Ok(Case { bytes, expect: d.clone(), kind: if xref_stream { "plain/xref-stream" } else { "plain/xref-table" } })
 }
